@@ -427,7 +427,7 @@ func (r *Reader) seek(rec record) (*tableIter, error) {
 	}
 
 	tabIter, err := r.start(rec.typ(), false)
-	if err != nil {
+	if err != nil || tabIter == nil {
 		return nil, err
 	}
 
@@ -443,6 +443,9 @@ func (r *Reader) seekIndexed(want record) (*tableIter, error) {
 	idxIter, err := r.start(want.typ(), true)
 	if err != nil {
 		return nil, err
+	}
+	if idxIter == nil {
+		return nil, fmtError
 	}
 
 	wantIdx := &indexRecord{
@@ -464,9 +467,16 @@ func (r *Reader) seekIndexed(want record) (*tableIter, error) {
 			return nil, err
 		}
 
+		if rec.Offset >= idxIter.blockOff {
+			// an index block comes after the blocks it points to.
+			return nil, fmtError
+		}
 		tabIter, err := r.tabIterAt(rec.Offset, blockTypeAny)
 		if err != nil {
 			return nil, err
+		}
+		if tabIter == nil {
+			return nil, fmtError
 		}
 
 		err = tabIter.bi.seek(want.key())
@@ -479,7 +489,7 @@ func (r *Reader) seekIndexed(want record) (*tableIter, error) {
 		}
 
 		if tabIter.typ != blockTypeIndex {
-			log.Panicf("got type %c following indexes", tabIter.typ)
+			return nil, fmtError
 		}
 
 		idxIter = tabIter
@@ -510,7 +520,8 @@ func (r *Reader) seekLinear(tabIter *tableIter, want record) (bool, error) {
 			return false, err
 		}
 		if !ok {
-			panic("read from fresh block failed")
+			// a block without records
+			return false, fmtError
 		}
 		if rec.key() > wantKey {
 			break
